@@ -185,13 +185,14 @@ class SingleRemoteDevice(Device):
             .uids is sequence or set of used uids to not use for remote if uid not provided
 
         """
+        uids = set(uids) if uids is not None else set()
         if uid is None:
-            uids = set(uids) if uids is not None else set()
             if hasattr(stack, 'local'):
                 uids.add(stack.local.uid)
             uid = stack.nextUid()
             while uid in uids:
                 uid = stack.nextUid()
+        self.uids = uids
 
         super(SingleRemoteDevice, self).__init__(stack=stack, uid=uid, **kwa)
 
